@@ -54,7 +54,11 @@ func c01Parent(c *mon.Ctx) {
 }
 
 // c01RunShard runs one shard, restarting the child after each fatal input.
-func c01RunShard(c *mon.Ctx, phase string, sh, n int) {
+func c01RunShard(c *mon.Ctx, phase string, sh, n int) { runShardWithRestart(c, "C01", phase, sh, n) }
+
+// runShardWithRestart runs one shard whose child takes -n <skip>; after an abnormal end the death is attributed to the last
+// logged input and the child is restarted after it.
+func runShardWithRestart(c *mon.Ctx, prop, phase string, sh, n int) {
 	skip := 0
 	for attempt := 0; attempt < 25; attempt++ {
 		s := mon.Shard{Variant: "plain", Phase: phase, Name: fmt.Sprintf("%s-%03d-a%02d", phase, sh, attempt), Timeout: 25 * time.Minute,
@@ -81,10 +85,10 @@ func c01RunShard(c *mon.Ctx, phase string, sh, n int) {
 			wit, _ = json.Marshal(map[string]interface{}{"case": r.LastBegin.EP, "input": string(r.LastBegin.In), "phase": phase})
 		}
 		hang := strings.Contains(r.Stderr, "VERIF-HANG")
-		id := fmt.Sprintf("C01/death/%s@%s/%s", shortBanner(banner, r), frame, caseFamily(last))
+		id := fmt.Sprintf("%s/death/%s@%s/%s", prop, shortBanner(banner, r), frame, caseFamily(last))
 		clause := "the process is never killed by a runtime fatal error"
 		if hang {
-			id = fmt.Sprintf("C01/hang/%s/%s", hangEP(r.Stderr), caseFamily(last))
+			id = fmt.Sprintf("%s/hang/%s/%s", prop, hangEP(r.Stderr), caseFamily(last))
 			clause = "the call completes"
 		}
 		c.AddViol(mon.Viol{ID: id, Clause: clause, Detail: fmt.Sprintf("child died (exit=%d signal=%q) banner=%q on input %s\n%s", r.ExitCode, r.Signal, banner, last, tailStr(r.Stderr, 1200)), Witness: wit, Phase: phase})
